@@ -74,6 +74,13 @@ def specs_for(ctx):
                 comp_f = [{"kind": "partial", "name": ["partial"], "matches": [], "pat": g, "regex_of_partial": rx}]
                 matches = [m for m in mods if re.match(rx, dotted(m))]
                 kind = "partial"
+            if kind == "partial" and rng.random() < 0.25:
+                # a list of partial names: every pattern must match something - one that matches nothing is an
+                # error even when its neighbour matches
+                extra = {"kind": "partial", "name": ["partial"], "matches": [], "pat": "zz_no_such*",
+                         "regex_of_partial": globs.to_regex("zz_no_such*")}
+                comp_f = comp_f + [extra] if rng.random() < 0.5 else [extra] + comp_f
+                matches = []
             counts[kind] += 1
             exp_f = [F("named", m) for m in matches]
             compact = mk_rule(verb, d, exc, comp_f if side == "subs" else other, other if side == "subs" else comp_f)
